@@ -80,6 +80,7 @@ type SpecFile struct {
 	FuncOrder   []string
 	GhostFields map[string]*GhostField
 	GhostVars   map[string]string // name -> type text
+	GhostExtern map[string]bool   // ghost variables declared in the externs file: they model state outside the repository
 	GhostOrder  []string
 	SpecFuns    map[string]*SpecFun
 	Axioms      []*Clause
@@ -94,6 +95,7 @@ func newSpecFile() *SpecFile {
 		Funcs:       map[string]*FuncSpec{},
 		GhostFields: map[string]*GhostField{},
 		GhostVars:   map[string]string{},
+		GhostExtern: map[string]bool{},
 		SpecFuns:    map[string]*SpecFun{},
 		Invs:        map[string][]*Clause{},
 		ChanInvs:    map[string]*Clause{},
@@ -106,7 +108,7 @@ var knownKeywords = map[string]bool{
 	"func": true, "iface": true, "ghost": true, "chaninv": true, "smtfun": true, "spec": true, "axiom": true, "lemma": true,
 	"requires": true, "ensures": true, "maintains": true, "modifies": true, "pure": true, "pure_const": true, "inline": true, "let": true, "loop": true,
 	"panics_iff": true, "ensures_on_panic": true, "replay": true, "nopanic": true, "synchronous": true, "params": true, "results": true,
-	"trusted": true, "floor": true, "callee": true, "use": true, "extern": true, "decreases": true, "recovers": true, "may_panic": true, "nooverflow": true,
+	"trusted": true, "floor": true, "callee": true, "use": true, "extern": true, "decreases": true, "recovers": true, "may_panic": true, "nooverflow": true, "rangefunc": true,
 }
 
 func parsePropsLabel(s string) (props []string, label string) {
@@ -196,6 +198,9 @@ func (sf *SpecFile) load(path string, extern bool) error {
 				sf.GhostFields[fs[1]] = &GhostField{Name: fs[1], Sort: strings.Join(fs[2:], " ")}
 			} else if len(fs) >= 3 && fs[0] == "var" {
 				sf.GhostVars[fs[1]] = strings.Join(fs[2:], " ")
+				if extern {
+					sf.GhostExtern[fs[1]] = true
+				}
 				sf.GhostOrder = append(sf.GhostOrder, fs[1])
 			} else {
 				return fail(l, "bad ghost declaration")
